@@ -31,7 +31,7 @@ def run_sequence(repo, fixed, fix_psi, names):
     return T, ip, mo
 
 
-def same_atoms_diff(repo, fixed, fix_psi, seq, zero_first=False):
+def same_atoms_diff(repo, fixed, fix_psi, seq, zero_first=False, zero_at=None):
     """Compare refreshed operators with freshly built ones *in one atom table*.
 
     zero_first: the first potential of the sequence is identically zero.  Only matters if the builders test the *values*
@@ -54,11 +54,14 @@ def same_atoms_diff(repo, fixed, fix_psi, seq, zero_first=False):
         return mo
     a = mk()
     for i, nm in enumerate(seq):
-        state["nonzero"] = not (zero_first and i == 0)
+        state["nonzero"] = not ((zero_first and i == 0) or (zero_at is not None and i in zero_at))
         ip.call_method(a, "set_link_exponents", [Field(nm, "edge", comps=2)], {})
     state["nonzero"] = True
     b = mk()
+    last = len(seq) - 1
+    state["nonzero"] = not ((zero_first and last == 0) or (zero_at is not None and last in zero_at))
     ip.call_method(b, "set_link_exponents", [Field(seq[-1], "edge", comps=2)], {})
+    state["nonzero"] = True
     ip.value_tests_asked = state["asked"]
     out = {}
     for attr in ("psi_gradient", "psi_laplacian"):
@@ -84,9 +87,15 @@ def check(ctx):
     configs = [("F", True, "terminals pinned"), ("F", False, "pinning disabled"), ("empty", True, "no terminals")]
     seqs = [["A1", "A2"], ["A1", "A2", "A3"], ["A1", "A1"]]
     for fixed, fix_psi, desc0 in configs:
-        for seq, zero_first in [(s_, False) for s_ in seqs] + [(["A1", "A2"], True), (["A1", "A2", "A3"], True)]:
-            desc = desc0 + (", first potential identically zero" if zero_first else "")
-            ip, a, b, diffs, le_ok = same_atoms_diff(repo, fixed, fix_psi, seq, zero_first)
+        plan = [(s_, False, None) for s_ in seqs] + [(["A1", "A2"], True, None), (["A1", "A2", "A3"], True, None)]
+        if ctx.tier == "thorough":
+            # longer histories, returns to an earlier potential, and an identically-zero potential at every position
+            plan += [(s_, False, None) for s_ in (["A1", "A2", "A1"], ["A1", "A2", "A3", "A1"], ["A1", "A1", "A2", "A2"], ["A1", "A2", "A3", "A4"])]
+            plan += [(["A1", "A2", "A3"], False, (1,)), (["A1", "A2", "A3"], False, (2,)), (["A1", "A2", "A3", "A4"], False, (0, 2))]
+        for seq, zero_first, zero_at in plan:
+            desc = desc0 + (", first potential identically zero" if zero_first else "") + (f", potentials {zero_at} identically zero" if zero_at else "")
+            ip, a, b, diffs, le_ok = same_atoms_diff(repo, fixed, fix_psi, seq, zero_first, zero_at)
+            zero_first = zero_first or bool(zero_at)
             if zero_first and not ip.value_tests_asked:
                 # the builders never look at the values of the potential: a zero potential is not a special case
                 ctx.ob("R10.1", f"operators do not branch on the values of the potential ({desc0}, {'->'.join(seq)})", True,
